@@ -228,6 +228,36 @@ Definition replenish_decide {R} (v : view R) (naccounts target : N) (dec1 : bool
 (** RPCLatestRevision (rpc.go:1003) and RPCSettings (rpc.go:462): whatever decodes is returned. *)
 Definition pass_decide (dec : bool) : result unit := if dec then Ok () else Err.
 
+(** RPCFormContract, rpc.go:1065-1196. [host_sum] is the value of the inputs the host
+    offered, [host_cost] what it must fund (fc.TotalCollateral), [id_eq] whether the
+    last transaction of the final set has the ID of the renter's own transaction. *)
+Definition form_decide (funded dec1 : bool) (host_sum host_cost : N) (dec3 : bool) (nset ncontracts : N)
+    (id_eq sig_ok : bool) (cost : N) : result N :=
+  if negb funded then Err                                   (* 1073 FundV2Transaction *)
+  else if negb dec1 then Err                                (* 1111 *)
+  else if host_sum <? host_cost then Err                    (* 1123 *)
+  else if negb dec3 then Err                                (* 1153 *)
+  else if nset =? 0 then Err                                (* 1158 *)
+  else if negb (ncontracts =? 1) then Err                   (* 1163 *)
+  else if negb id_eq then Err                               (* 1171 transaction ID mismatch *)
+  else if negb sig_ok then Err                              (* 1178 host signature over the renter's sighash *)
+  else Ok cost.
+
+(** RPCRenewContract (rpc.go:1198-1341) and rpcRefreshContract (rpc.go:311-463, both
+    refresh RPCs) have the same final checks. *)
+Definition renew_decide (funded dec1 : bool) (host_sum host_cost : N) (dec3 : bool) (nset nres : N)
+    (is_renewal rsig_ok csig_ok : bool) (cost : N) : result N :=
+  if negb funded then Err                                   (* 1210 / 334 *)
+  else if negb dec1 then Err                                (* 1241 / 365 *)
+  else if host_sum <? host_cost then Err                    (* 1254 / 378 *)
+  else if negb dec3 then Err                                (* 1295 / 419 *)
+  else if nset =? 0 then Err                                (* 1300 / 424 *)
+  else if negb (nres =? 1) then Err                         (* 1305 / 429 *)
+  else if negb is_renewal then Err                          (* 1311 / 435 *)
+  else if negb rsig_ok then Err                             (* 1317 / 441 renewal signature *)
+  else if negb csig_ok then Err                             (* 1320 / 444 contract signature *)
+  else Ok cost.
+
 (** ** Layer 2: symbolic terms (DESIGN 3.3) *)
 
 Definition leaf := N.                                  (* 64 bytes of data, by name *)
@@ -241,7 +271,10 @@ Global Instance croot_eq_dec : EqDecision croot. Proof. solve_decision. Defined.
 Definition key := N.
 Global Instance prices_eq_dec : EqDecision prices. Proof. solve_decision. Defined.
 (* ContractSigHash and HostPrices.SigHash are injective and domain separated *)
-Inductive msg := MRev (hk rk : key) (v : view croot) | MPrices (p : prices) | MOther (n : N).
+(* [MRenewal hk rk v rest]: RenewalSigHash of the renewal whose new contract is (hk, rk, v) and
+   whose remaining fields (final outputs, rollovers) are named [rest] *)
+Inductive msg := MRev (hk rk : key) (v : view croot) | MPrices (p : prices)
+               | MRenewal (hk rk : key) (v : view croot) (rest : N) | MOther (n : N).
 Inductive sig := Sig (k : key) (m : msg) | SigX (n : N).
 Global Instance view_eq_dec : EqDecision (view croot). Proof. solve_decision. Defined.
 Global Instance msg_eq_dec : EqDecision msg. Proof. solve_decision. Defined.
@@ -470,3 +503,58 @@ Definition client_replenish (t : key) (c : contract) (accounts : list N) (target
 (** RPCLatestRevision / RPCSettings: no verification at all *)
 Definition client_pass {A} (r : option A) : result A :=
   match r with Some a => Ok a | None => Err end.
+
+(** *** Forming, renewing and refreshing a contract
+
+    The renter builds the new contract [mine] (core's NewContract / RenewContract /
+    RefreshContract*, law L4, not transcribed: the contract is a given term) with keys
+    [hk], [rk], signs it, and at the end holds the host's final transaction set. What the
+    call returns must be [mine] with a host signature over exactly [mine]. *)
+Record contract_result := mk_contract_result {
+  cr_hk : key; cr_rk : key; cr_view : view croot; cr_rsig : sig; cr_hsig : sig; cr_cost : N }.
+
+(** a contract object as it appears inside a transaction *)
+Record contract_obj := mk_contract_obj { co_hk : key; co_rk : key; co_view : view croot; co_rsig : sig; co_hsig : sig }.
+Definition co_body (c : contract_obj) : key * key * view croot := (co_hk c, co_rk c, co_view c).
+
+(** the last transaction of the final response of RPCFormContract: its contracts and
+    everything else that enters the transaction ID ([ft_rest]); the ID is injective *)
+Record form_final := mk_form_final { ff_nset : N; ff_contracts : list contract_obj; ff_rest : N }.
+Definition txid (bodies : list (key * key * view croot)) (rest : N) := (bodies, rest).
+
+Definition client_form (t : key) (hk rk : key) (mine : view croot) (my_rest : N) (funded : bool) (host_cost cost : N)
+    (r1 : option N) (r3 : option form_final) : result contract_result :=
+  let sum := default 0 r1 in
+  let '(dec3, nset, contracts, rest) := match r3 with
+      | Some f => (true, ff_nset f, ff_contracts f, ff_rest f) | None => (false, 0, [], 0) end in
+  let hs := match contracts with c :: _ => co_hsig c | [] => SigX 0 end in
+  match form_decide funded (bool_decide (is_Some r1)) sum host_cost dec3 nset (len contracts)
+          (bool_decide (txid (co_body <$> contracts) rest = txid [(hk, rk, mine)] my_rest))
+          (verify_sig hk (MRev hk rk mine) hs) cost with      (* 1177: fc.HostSignature := the host's; fc is the renter's *)
+  | Ok c => Ok (mk_contract_result hk rk mine (Sig rk (MRev hk rk mine)) hs c)
+  | Err => Err
+  end.
+
+(** a resolution inside the last transaction of the final response of renew / refresh *)
+Inductive resolution :=
+| ResRenewal (newc : contract_obj) (rest : N) (rsig_host : sig)
+| ResOther.
+Record renew_final := mk_renew_final { rf_nset : N; rf_resolutions : list resolution }.
+
+(** [c] is the existing contract: its [c_hk] is the key both signatures are checked
+    against (rpc.go:1317,1320 / 441,444), whatever the transport key [t] *)
+Definition client_renew (t : key) (c : contract) (mine : view croot) (my_rest : N) (funded : bool) (host_cost cost : N)
+    (r1 : option N) (r3 : option renew_final) : result contract_result :=
+  let hk := c_hk c in let rk := c_rk c in
+  let sum := default 0 r1 in
+  let '(dec3, nset, ress) := match r3 with
+      | Some f => (true, rf_nset f, rf_resolutions f) | None => (false, 0, []) end in
+  let '(is_renewal, rsig, csig) := match ress with
+      | ResRenewal nc _ rs :: _ => (true, rs, co_hsig nc) | _ => (false, SigX 0, SigX 0) end in
+  match renew_decide funded (bool_decide (is_Some r1)) sum host_cost dec3 nset (len ress) is_renewal
+          (verify_sig hk (MRenewal hk rk mine my_rest) rsig)
+          (verify_sig hk (MRev hk rk mine) csig) cost with
+  (* fix 2ab6a23: the renter's own contract with the host's signature copied in *)
+  | Ok k => Ok (mk_contract_result hk rk mine (Sig rk (MRev hk rk mine)) csig k)
+  | Err => Err
+  end.
